@@ -449,7 +449,13 @@ def concretise(n, rng=None):
             d[key] = v
         return o
     if k == "NocaseDict":
+        # a dictionary of the keybindings flavour (as CIMInstanceName hands it
+        # out): it accepts the unnamed key None.  For keys other than None
+        # the flag changes nothing; a dictionary that rejects the unnamed key
+        # is never compared with one that holds it (see notes: == raises
+        # ValueError from __contains__ there, outside the generated domain).
         d = NocaseDict()
+        d.allow_unnamed_keys = True
         for key, v in _keyed(ch[0], rng):
             d[key] = v
         return d
@@ -667,7 +673,8 @@ def cells(root, maxdepth=6):
         if isinstance(x, VendorNocaseDict):
             for key, v in x.items():
                 if isinstance(v, OBJ_CLASSES):
-                    walk(v, steps + ["#k:O"], access + [("key", key)], slot)
+                    walk(v, steps + ["#u:O" if key is None else "#k:O"],
+                         access + [("key", key)], slot)
             return
         if isinstance(x, list):
             for i, v in enumerate(x):
@@ -864,6 +871,10 @@ def cell_mutations(cell, slot):
                 del d[next(iter(d.keys()))]
             muts.append(("dict:del", "drop:#k", dele))
             muts.append(("dict:clear", "set", lambda d: d.clear()))
+        if any(k is None for k in cell.keys()):
+            def delu(d):
+                del d[None]
+            muts.append(("dict:del-unnamed", "drop:#u", delu))
     elif isinstance(cell, list):
         def app(lst):
             lst.append(_replacement("", "", lst[0]) if lst else "Zeta")
@@ -951,7 +962,18 @@ def heap_root_node(root):
              "at": ["s:uint8", "none", "True", "i:5"],
              "ch": [_v(_l([])), quals]}
     qdecle = dict(qdecl, ch=[_v(_l([])), qdecl["ch"][1]])
-    return {"InstanceName": iname, "ClassName": cname, "Instance": inst,
+    # dictionaries that hold the unnamed key None (a reference keybinding
+    # without a name, beside named scalar ones)
+    ndictu = {"k": "NocaseDict", "nm": [], "at": [],
+              "ch": [[_e(_n("n2"), _s("str:x")), _e(dict(NONAME), ref)]]}
+    inameu = {"k": "InstanceName", "nm": [_n("n1"), dict(NONAME), _n("n1")],
+              "at": [], "ch": [[_e(dict(NONAME), ref),
+                                _e(_n("n3"), _s("uint8:1", "1"))]]}
+    instu = {"k": "Instance", "nm": [_n("n1")], "at": [],
+             "ch": [_v(inameu), [_e(_n("n3"), propref)], []]}
+    return {"NocaseDictUnnamed": ndictu, "InstanceNameUnnamed": inameu,
+            "InstanceUnnamed": instu,
+            "InstanceName": iname, "ClassName": cname, "Instance": inst,
             "Class": cls, "Property": prop, "PropertyObj": propobj,
             "PropertyRef": propref, "Method": meth, "Parameter": parm,
             "Qualifier": qual, "QualifierDeclaration": qdecl,
@@ -964,7 +986,8 @@ HEAP_ROOTS = ("InstanceName", "ClassName", "Instance", "Class", "Property",
               "PropertyObj", "PropertyRef", "Method", "Parameter",
               "Qualifier", "QualifierDeclaration", "NocaseDict",
               "PropertyEmpty", "ParameterEmpty", "QualifierEmpty",
-              "QualifierDeclarationEmpty")
+              "QualifierDeclarationEmpty", "NocaseDictUnnamed",
+              "InstanceNameUnnamed", "InstanceUnnamed")
 
 
 def follow(root, steps):
@@ -973,8 +996,11 @@ def follow(root, steps):
     slot = ""
     for st in steps:
         key, _, _t = st.partition(":")
-        if key == "#k":
-            x = next(v for v in x.values() if isinstance(v, OBJ_CLASSES))
+        if key == "#u":
+            x = x[None]
+        elif key == "#k":
+            x = next(v for k_, v in x.items()
+                     if k_ is not None and isinstance(v, OBJ_CLASSES))
         elif key == "#i":
             x = next(v for v in x if isinstance(v, OBJ_CLASSES))
         else:
@@ -1019,6 +1045,201 @@ def behaviour_event(build, m, muts, rng):
                           "moved": "T" if safe_project(c) != before else "F"})
         prev = now
     return e
+
+
+# ---------------------------------------------------------------------------
+# histories (spec/CimEqHeap.tla, Mode = "hist"): hash / mutate the object
+# itself, then compare it with a freshly built object that has the same
+# public attributes (spec/CimEq.tla FailsHist)
+# ---------------------------------------------------------------------------
+DICT_MUTATORS = ("setitem", "delitem", "pop", "popitem", "clear", "update",
+                 "setdefault")
+
+
+class NotApplicable(Exception):
+    """the abstract step has no counterpart on this concrete object"""
+
+
+def _recased(key, rng):
+    if key is None or rng is None:
+        return key
+    return rng.choice([key, key.upper(), key.lower(), key])
+
+
+def dict_mutation(d, slot, mu, kidkey, rng):
+    """(label, fn): a concrete call of the NocaseDict mutator `mu` on the
+    dictionary cell d.  kidkey (for the removing mutators): "#k" the item
+    removed holds an object, "#u" it is the unnamed one, "" a scalar item."""
+    keys = list(d.keys())
+    named = [k for k in keys if k is not None]
+    if mu in ("setitem", "update", "setdefault"):
+        newkey = next(k for k in ("Zeta", "Ypsilon", "Xi", "Alpha", "Beta")
+                      if k not in d)
+        child = _new_child(slot, newkey)
+        scal = [k for k in named if not isinstance(d[k], OBJ_CLASSES)]
+        if mu == "setdefault":
+            return ("setdefault(%r)" % newkey,
+                    lambda x: x.setdefault(newkey, child))
+        how = rng.randrange(4)
+        if how == 0 and scal:
+            k = scal[0]
+            rep = _replacement(slot, k, d[k])
+            k2 = _recased(k, rng)
+            if mu == "setitem":
+                return ("d[%r] = other value" % k2,
+                        lambda x: x.__setitem__(k2, rep))
+            return ("update({%r: other value})" % k2,
+                    lambda x: x.update({k2: rep}))
+        if how == 1 and mu == "setitem" and slot in ("kb", "") and \
+                getattr(d, "allow_unnamed_keys", False) and None not in keys:
+            return ("d[None] = value", lambda x: x.__setitem__(None, child))
+        if mu == "setitem":
+            return ("d[%r] = new item" % newkey,
+                    lambda x: x.__setitem__(newkey, child))
+        if how == 2:
+            return ("update([(%r, new item)])" % newkey,
+                    lambda x: x.update([(newkey, child)]))
+        if how == 3:
+            return ("update(%s=new item)" % newkey,
+                    lambda x: x.update(**{newkey: child}))
+        return ("update({%r: new item})" % newkey,
+                lambda x: x.update({newkey: child}))
+    if mu == "clear":
+        return ("clear()", lambda x: x.clear())
+    if not keys:
+        raise NotApplicable("empty dictionary")
+    if mu == "popitem":
+        return ("popitem()", lambda x: x.popitem())
+    if kidkey == "#u":
+        if None not in keys:
+            raise NotApplicable("no unnamed key")
+        k = None
+    else:
+        want_obj = kidkey == "#k"
+        cand = [k for k in named
+                if isinstance(d[k], OBJ_CLASSES) == want_obj] or named
+        if not cand:
+            raise NotApplicable("no named key")
+        k = _recased(cand[0], rng)
+    if mu == "delitem":
+        return ("del d[%r]" % (k,), lambda x: x.__delitem__(k))
+    if mu == "pop":
+        return ("pop(%r)" % (k,), lambda x: x.pop(k))
+    raise ValueError(mu)
+
+
+def hist_observe(o, acts, rng):
+    """the object after its history against a freshly built object with the
+    same public attributes (other spellings of the names, other order of the
+    bags): one "hist" event, or None if no such object can be built."""
+    node = project(o)
+    g = RichGen(rng)
+    try:
+        fresh = concretise(g.reorder(g.recase(node)), rng)
+    except Exception:  # noqa: projection not re-buildable (harness limit)
+        return None
+    e = pair_event(o, fresh)
+    e["ev"] = "hist"
+    e["k"] = node["k"]
+    e["acts"] = acts
+    return e
+
+
+def history_event(build, muts, rng):
+    """one TLC history on a real object: every step on the object itself
+    (hash() of a cell, a dictionary mutator, an in-place change of an object
+    or list cell), then the observation against a fresh equal object.
+    None: a step has no counterpart on the concrete object."""
+    o = build()
+    acts = []
+    for mu in muts:
+        steps = list(mu["steps"])
+        v = mu["v"]
+        try:
+            cell, slot = follow(o, steps)
+        except Exception:  # noqa: no such cell (any more)
+            return None
+        if v == "hash":
+            if isinstance(cell, list):
+                return None
+            res = ob(lambda: hash(cell) == hash(cell))
+            label = "hash()" if res == "T" else "hash() -> " + res
+        elif v in DICT_MUTATORS:
+            if not isinstance(cell, VendorNocaseDict):
+                return None
+            try:
+                label, fn = dict_mutation(cell, slot, v, mu.get("key", ""),
+                                          rng)
+                fn(cell)
+            except Exception:  # noqa: not applicable to this dictionary
+                return None
+        else:
+            if isinstance(cell, VendorNocaseDict):
+                return None
+            want = "set" if v == "set" else "drop:" + mu.get("key", "")
+            cands = [x for x in cell_mutations(cell, slot) if x[1] == want]
+            if not cands:
+                return None
+            label, _variant, fn = cands[rng.randrange(len(cands))]
+            try:
+                fn(cell)
+            except Exception:  # noqa: the setter rejects it
+                return None
+        acts.append({"v": v, "steps": steps, "what": label})
+    return hist_observe(o, acts, rng)
+
+
+def _hashable_prefixes(access, root):
+    """accesses of the cells on the way from the root to `access` that can be
+    hashed (objects and dictionaries)."""
+    out = []
+    for i in range(len(access) + 1):
+        c = resolve(root, access[:i])
+        if not isinstance(c, list):
+            out.append(tuple(access[:i]))
+    return out
+
+
+def hist_walk(build, rng, per_cell=2):
+    """hash-then-mutate histories for EVERY cell of the object build()
+    returns (the shape of TLC's counterexamples for the cached variants:
+    <<hash(p), mutate(q)>> with p at or above q): a dictionary cell gets every
+    NocaseDict mutator, any other cell `per_cell` of its in-place changes.
+    Returns [(event, info)]."""
+    proto = build()
+    out = []
+    for steps, access, cell, slot in cells(proto):
+        if isinstance(cell, VendorNocaseDict):
+            todo = [(mu, None) for mu in DICT_MUTATORS]
+        else:
+            cm = cell_mutations(cell, slot)
+            todo = [("set" if x[1] == "set" else "drop", x)
+                    for x in rng.sample(cm, min(per_cell, len(cm)))]
+        for v, cm in todo:
+            o = build()
+            tgt = resolve(o, access)
+            pre = _hashable_prefixes(access, o)
+            hacc = pre[0] if rng.random() < 0.6 else rng.choice(pre)
+            hcell = resolve(o, hacc)
+            res = ob(lambda: hash(hcell) == hash(hcell))
+            acts = [{"v": "hash", "steps": list(steps[:len(hacc)]),
+                     "what": "hash()" if res == "T" else "hash() -> " + res}]
+            try:
+                if cm is None:
+                    kid = rng.choice(["#k", "", "#u"]) \
+                        if any(k is None for k in tgt.keys()) \
+                        else rng.choice(["#k", ""])
+                    label, fn = dict_mutation(tgt, slot, v, kid, rng)
+                else:
+                    label, fn = cm[0], cm[2]
+                fn(tgt)
+            except Exception:  # noqa: not applicable here
+                continue
+            acts.append({"v": v, "steps": list(steps), "what": label})
+            e = hist_observe(o, acts, rng)
+            if e is not None:
+                out.append(e)
+    return out
 
 
 # ---------------------------------------------------------------------------
@@ -1212,6 +1433,9 @@ class RichGen:
         for b in self.distinct(r.randrange(4)):
             kb.append(_e({"b": b, "c": r.randrange(len(GENERIC[b]))},
                          self.untyped(depth)))
+        if r.random() < 0.12:       # unnamed keybinding (key None)
+            kb.insert(r.randrange(len(kb) + 1),
+                      _e(dict(NONAME), self.untyped(depth)))
         return {"k": "InstanceName",
                 "nm": [self.name(), self.optname(HOST, 0.4),
                        self.optname(NAMESPACE, 0.6)],
@@ -1295,6 +1519,9 @@ class RichGen:
             else:
                 v = self.classname()
             items.append(_e({"b": b, "c": r.randrange(len(GENERIC[b]))}, v))
+        if r.random() < 0.12:       # item under the unnamed key None
+            items.insert(r.randrange(len(items) + 1),
+                         _e(dict(NONAME), self.untyped(1)))
         return {"k": "NocaseDict", "nm": [], "at": [], "ch": [items]}
 
     def make(self, kind):
